@@ -11,6 +11,10 @@ COMP = "robotools/liquidhandling/composition.py"
 UT = "robotools/utils.py"
 
 MUTANTS = [
+    dict(id="group-last-digit", expect=["C18"], edits=[(WU, "            group = s[1:]", "            group = s[2:]")]),
+    dict(id="group-order-mod10", expect=["C18"], edits=[(WU, "column_groups = [column_groups_dd[col] for col in sorted(column_groups_dd.keys())]", "column_groups = [column_groups_dd[col] for col in sorted(column_groups_dd.keys(), key=lambda k: int(k) % 10)]")]),
+    dict(id="dest-slice-1-3", expect=[], silent=["C18"], edits=[(WU, "            group = d[1:]", "            group = d[1:3]")]),
+    dict(id="optimize-auto-always-source", expect=["C18"], force=True, edits=[(WU, "        if source.is_trough and not destination.is_trough:\n            partition_by = \"destination\"", "        if source.is_trough and not destination.is_trough and False:\n            partition_by = \"destination\"")]),
     dict(id="sel-gt-7", expect=["C12"], force=True, edits=[(EVC, "            if bit_counter > 6:", "            if bit_counter > 7:")]),
     dict(id="sel-plus-47", expect=["C12"], force=True, edits=[(EVC, "                selection += chr(bit_mask + 48)\n                bit_counter = 0", "                selection += chr(bit_mask + 47)\n                bit_counter = 0")]),
     dict(id="sel-full-group-zero", expect=["C12"], edits=[(EVC, "                selection += chr(bit_mask + 48)\n                bit_counter = 0", "                selection += chr((bit_mask if bit_mask != 127 else 0) + 48)\n                bit_counter = 0")]),
